@@ -11,7 +11,21 @@ import (
 func genProduce(maxValidators, minN, maxN, maxBack, maxTx int) func(rt *rapid.T) any {
 	return func(rt *rapid.T) any {
 		cfg := GenCfg(rt, maxValidators)
-		return &TreePlan{Cfg: cfg, Warm: WarmupLen(cfg), Steps: GenSteps(rt, minN, maxN, maxBack, maxTx)}
+		p := &TreePlan{Cfg: cfg, Warm: WarmupLen(cfg), Steps: GenSteps(rt, minN, maxN, maxBack, maxTx)}
+		// full blocks: in a drawn share of the steps the pool holds more than a block takes (the
+		// registered C38 build has a block gas limit of a few transactions), with children chained to
+		// heavier parents behind them
+		for i := range p.Steps {
+			if rapid.IntRange(0, 2).Draw(rt, "fullq") != 2 {
+				continue
+			}
+			for k, n := 0, rapid.IntRange(2, 5).Draw(rt, "nfull"); k < n; k++ {
+				kind := rapid.SampledFrom([]string{"pay2", "pay", "vote", "issue", "retire"}).Draw(rt, "fullkind")
+				p.Steps[i].Txs = append(p.Steps[i].Txs, TxOp{Kind: kind, A: rapid.IntRange(0, 7).Draw(rt, "fa"), B: rapid.IntRange(0, 7).Draw(rt, "fb"), C: rapid.IntRange(0, 5).Draw(rt, "fc")},
+					TxOp{Kind: "chain", A: rapid.IntRange(0, 7).Draw(rt, "ca"), B: rapid.IntRange(0, 7).Draw(rt, "cb"), C: rapid.IntRange(0, 5).Draw(rt, "cc")})
+			}
+		}
+		return p
 	}
 }
 
